@@ -200,6 +200,8 @@ type Prop struct {
 	Rule  string
 	// Pinned inputs (always run first)
 	Pinned []Case
+	// Extras: additional non-lattice enumerations, sharded by (shardI, shardN)
+	Extras []func(r *ev.Run, shardI, shardN int) scopeReport
 }
 
 var props = map[string]*Prop{}
@@ -310,6 +312,13 @@ func runProp(p *Prop) {
 			break
 		}
 	}
+	for _, ex := range p.Extras {
+		if r.DeadlineHit() {
+			break
+		}
+		sd.Reports = append(sd.Reports, ex(r, r.ShardI, r.ShardN))
+		sd.Outcomes = append(sd.Outcomes, nil)
+	}
 	sd.Samples = samples.L
 	r.FinishShard(sd)
 }
@@ -321,7 +330,7 @@ func parent(p *Prop, r *ev.Run) {
 	}
 	n := runtime.NumCPU()
 	parts := r.RunShards(n)
-	nScopes := len(p.Scopes(r.Thorough()))
+	nScopes := len(p.Scopes(r.Thorough())) + len(p.Extras)
 	reports := make([]scopeReport, nScopes)
 	outs := make([]map[uint64]struct{}, nScopes)
 	var samples []any
